@@ -330,6 +330,47 @@ def t0_rules(chk):
             chk.violation('x509-rejection-sites', 'x509_minimal W%d@%d: fail code non-zero' % (e.word, e.pc), P.src, 'fail(0) possible', key='x509 fail0 W%d' % e.word)
 
 
+def key_usage_masks(chk):
+    """RFC 5280 4.2.1.3 (bit 0 is the most significant bit of the first content byte): a CA certificate must assert keyCertSign
+    (bit 5 -> 0x04); for the end-entity key, key exchange is allowed by keyEncipherment / dataEncipherment / keyAgreement
+    (bits 2-4 -> 0x38) and signatures by digitalSignature / nonRepudiation (bits 0-1 -> 0xC0)."""
+    R = 'x509-keyusage-bits'
+    P = t0.Program('x509_minimal')
+    cv = build.const_values(['BR_ERR_X509_FORBIDDEN_KEY_USAGE', 'BR_KEYTYPE_KEYX', 'BR_KEYTYPE_SIGN'])
+    I = t0ai.Interp(P).run_entry()
+    o_ku = P.layouts.field(P.ctxname, 'key_usages')[0]
+    ws = set(e.word for e in I.events if e.name == 'fail' and e.args[0].isconst() and e.args[0].c == cv['BR_ERR_X509_FORBIDDEN_KEY_USAGE'])
+    ws &= set(e.word for e in I.events if e.name == 'set8' and e.args[-1].isconst() and e.args[-1].c == o_ku)
+    if len(ws) != 1:
+        raise AnalysisBroken('x509_minimal: the keyUsage word was not identified (%s)' % sorted(ws))
+    W = P.words[next(iter(ws))]
+    seq = list(W.ins.values())
+    ee, ca = {}, []
+    for k in range(len(seq) - 2):
+        a, b, c = seq[k], seq[k + 1], seq[k + 2]
+        if a.kind == 'const' and b.kind == 'native' and b.name == 'and' and c.kind in ('jumpif', 'jumpifnot'):
+            nxt = seq[k + 3:k + 5]
+            if c.kind == 'jumpifnot' and len(nxt) == 2 and nxt[0].kind == 'const' and nxt[1].kind == 'native' and nxt[1].name == 'or':
+                ee[nxt[0].arg] = a.arg
+            else:
+                # the test that guards the failure: the fail must follow on the not-taken side
+                tail = seq[k + 3:k + 6]
+                if any(x.kind == 'native' and x.name == 'fail' for x in tail):
+                    ca.append(a.arg)
+    for usage, name, want in ((cv['BR_KEYTYPE_KEYX'], 'key exchange', 0x38), (cv['BR_KEYTYPE_SIGN'], 'signature', 0xC0)):
+        inst = 'x509_minimal: end-entity %s usage is granted by KeyUsage bits 0x%02X' % (name, want)
+        if ee.get(usage) == want:
+            chk.ok(R, inst, P.src)
+        else:
+            chk.violation(R, inst, P.src, 'the bytecode tests mask %s' % (hex(ee[usage]) if usage in ee else 'none'), key='%s ee %d' % (R, usage))
+    inst = 'x509_minimal: a CA certificate with a KeyUsage extension must assert keyCertSign (0x04)'
+    if ca == [0x04]:
+        chk.ok(R, inst, P.src)
+    else:
+        chk.violation(R, inst, P.src, 'the bytecode tests mask(s) %s before fail(BR_ERR_X509_FORBIDDEN_KEY_USAGE): an intermediate without keyCertSign is accepted '
+                      '(and a proper one may be refused)' % [hex(x) for x in ca], key='%s ca' % R)
+
+
 def err_writers(chk):
     """C stores to err: validation success (BR_ERR_X509_OK) is written only by the two trust natives"""
     u = build.load_unit(S)
@@ -376,5 +417,6 @@ def run(tier):
     comparison_operands(chk)
     err_writers(chk)
     t0_rules(chk)
+    key_usage_masks(chk)
     chk.floor('rule instances', len(chk.obls), 35)
     return chk.finish()
